@@ -88,7 +88,7 @@ class ValidationConfig(BaseConfig):
     batch_size: int = 8
     metrics: List[str] = field(default_factory=lambda: [])
     regularizers: List[str] = field(default_factory=lambda: [])
-    crop: Optional[str] = "training"
+    crop: Optional[str] = None
 
 
 @dataclass
